@@ -19,18 +19,21 @@ PROP == IOEnv.PROP
 NRec == Len(Rec)
 INTERVAL == 2000000            \* sync message interval in states
 
-VARIABLES l, cov,
-          vS,        \* machine state [er, ccr, pc, ov, li]: ov = bytes written so far, li = index of the `load`
-                    \* event whose image the history started from (TLC compares whole states whenever it
-                    \* reuses a cached LET value, so the state must stay SMALL: the image itself is not in it)
-          vPend,     \* pending interrupt requests (sequence)
-          vReq, vEnt, \* ghost histories: vectors requested / entered since the last load (sequences)
-          vSum,      \* cumulative state count <<millions, units>>
-          vPorts, vOdr,   \* port records (intended) and last observed DR bytes
-          vTm,       \* timer trace state
-          vPaused, vStopped, vExit, vDirty
-vars == <<l, cov, vS, vPend, vReq, vEnt, vSum, vPorts, vOdr, vTm, vPaused, vStopped, vExit, vDirty>>
-runvars == <<vSum, vPorts, vOdr, vTm, vPaused, vStopped, vExit, vDirty>>
+VARIABLES l,       \* index of the next event
+          vR       \* ONE record holding the whole trace state.  TLC invalidates its cache of LET values whenever
+                   \* a primed variable gets assigned, so every event handler computes its new state in one LET
+                   \* block and assigns it with a single conjunct.  Fields:
+                   \*   s      machine state [er, ccr, pc, ov, li]: ov = bytes written so far, li = index of the
+                   \*          `load` event whose image the history started from (the image itself stays out of
+                   \*          the state: TLC compares whole states when it reuses cached values)
+                   \*   pend   pending interrupt requests (sequence)
+                   \*   req, ent  ghost histories: vectors requested / entered since the last load
+                   \*   sum    cumulative state count <<millions, units>>
+                   \*   ports, odr  port records (intended) and last observed DR bytes
+                   \*   tm     timer trace state;  paused, stopped, exit: run-loop state;  cov: coverage
+vars == <<l, vR>>
+vS == vR.s  vPend == vR.pend  vReq == vR.req  vEnt == vR.ent  vSum == vR.sum  vPorts == vR.ports  vOdr == vR.odr
+vTm == vR.tm  vPaused == vR.paused  vStopped == vR.stopped  vExit == vR.exit  cov == vR.cov
 
 Zero64 == <<>>
 (* the memory image of the current history and the full machine state handed to H8Exec *)
@@ -45,21 +48,12 @@ StateOfLoad(e) == [er |-> ErOf(e.pre), ccr |-> CcrOf(e.pre), pc |-> PcOf(e.pre),
 PostState(e, mem2) == [er |-> ErOf(e.post), ccr |-> CcrOf(e.post), pc |-> PcOf(e.post), ov |-> mem2.ov, li |-> vS.li]
 
 LoadEvent(e) ==
-  /\ vS' = StateOfLoad(e)
-  /\ vPend' = e.pend
-  /\ vReq' = e.pend
-  /\ vEnt' = <<>>
-  /\ vSum' = <<0, 0>> /\ vPorts' = [k \in Ports |-> PortInit] /\ vOdr' = [k \in Ports |-> 0]
-  /\ vTm' = TimerTraceInit /\ vPaused' = FALSE /\ vStopped' = FALSE /\ vDirty' = {}
-  /\ vExit' = IF "exit" \in DOMAIN e THEN e.exit[1] * P16 + e.exit[2] ELSE -1
-  /\ UNCHANGED cov
+  /\ vR' = [vR EXCEPT !.s = StateOfLoad(e), !.pend = e.pend, !.req = e.pend, !.ent = <<>>, !.sum = <<0, 0>>, !.ports = [k \in Ports |-> PortInit], !.odr = [k \in Ports |-> 0], !.tm = TimerTraceInit, !.paused = FALSE, !.stopped = FALSE, !.exit = IF "exit" \in DOMAIN e THEN e.exit[1] * P16 + e.exit[2] ELSE -1]
 
 ReqEvent(e) ==
-  /\ vPend' = Request(vPend, e.v)
-  /\ vReq' = Append(vReq, e.v)
-  /\ UNCHANGED <<cov, vS, vEnt, runvars>>
+  /\ vR' = [vR EXCEPT !.pend = Request(vPend, e.v), !.req = Append(vReq, e.v)]
 
-(* the logged queue must be the spec'vS multiset of pending requests *)
+(* the logged queue must be the spec's multiset of pending requests *)
 SameBag(a, b) == Len(a) = Len(b) /\ \A v \in 0..255 : Cardinality({i \in 1..Len(a) : a[i] = v}) = Cardinality({i \in 1..Len(b) : b[i] = v})
 
 (* instruction boundary: e.entered = vector entered, 0 = none *)
@@ -68,8 +62,7 @@ AccEvent(e) ==
     (* not accepting is always allowed at a single boundary (C10 is an eventuality; see `end`) *)
     /\ IF e.res = "ok" /\ ErOf(e.post) = vS.er /\ CcrOf(e.post) = vS.ccr /\ PcOf(e.post) = vS.pc /\ e.wr = <<>> /\ SameBag(e.pend, vPend) THEN TRUE
        ELSE Rep("MISMATCH", e, "boundary without acceptance", <<"state changed">>)
-    /\ cov' = cov \cup {<<"acc", IF Len(vPend) = 0 THEN "idle" ELSE IF IFlag(vS) = 1 THEN "masked" ELSE "deferred">>}
-    /\ UNCHANGED <<vS, vPend, vReq, vEnt, runvars>>
+    /\ vR' = [vR EXCEPT !.cov = cov \cup {<<"acc", IF Len(vPend) = 0 THEN "idle" ELSE IF IFlag(vS) = 1 THEN "masked" ELSE "deferred">>}]
   ELSE
     LET v  == e.entered
         x  == AcceptF(SS(vS), v)
@@ -80,11 +73,7 @@ AccEvent(e) ==
         why == IF ~IsPending(vPend, v) THEN "entered a vector that was not requested"
                ELSE IF IFlag(vS) = 1 THEN "accepted while CCR.I is set" ELSE "entry frame / vector / state"
     IN /\ IF ok THEN TRUE ELSE Rep("MISMATCH", e, "interrupt acceptance", <<why>>)
-       /\ vS' = PostState(e, WrAll(M(vS), e.wr))
-       /\ vPend' = e.pend
-       /\ vEnt' = Append(vEnt, v)
-       /\ cov' = cov \cup {<<"acc", "entered">>}
-       /\ UNCHANGED <<vReq, runvars>>
+       /\ vR' = [vR EXCEPT !.s = PostState(e, WrAll(M(vS), e.wr)), !.pend = e.pend, !.ent = Append(vEnt, v), !.cov = cov \cup {<<"acc", "entered">>}]
 
 StepOK(e, x) ==
   IF x.pw THEN e.res # "panic"
@@ -99,22 +88,18 @@ StepEvent(e) ==
   IN /\ IF ok THEN TRUE
         ELSE IF dev # "" THEN Rep("DEVIATION", e, RowName(x), <<dev>>)
         ELSE Rep("MISMATCH", e, RowName(x), Diffs(e, SS(vS), x))
-     /\ vS' = PostState(e, WrAll(M(vS), e.wr))
-     /\ cov' = cov \cup {<<"step", RowName(x)>>}
-     /\ UNCHANGED <<vPend, vReq, vEnt, runvars>>
+     /\ vR' = [vR EXCEPT !.s = PostState(e, WrAll(M(vS), e.wr)), !.cov = cov \cup {<<"step", RowName(x)>>}]
 
 (* end of a stepped program whose tail ran with I = 0: nothing may be left pending, and every *)
 (* request was entered exactly once through its own vector                                    *)
 EndEvent(e) ==
   /\ IF Len(vPend) = 0 /\ \A v \in 0..255 : CountIn(vEnt, v) = CountIn(vReq, v) THEN TRUE
      ELSE Rep("MISMATCH", e, "end of program", <<"requests lost or duplicated">>)
-  /\ cov' = cov \cup {<<"end", "">>}
-  /\ UNCHANGED <<vS, vPend, vReq, vEnt, runvars>>
+  /\ vR' = [vR EXCEPT !.cov = cov \cup {<<"end", "">>}]
 
 CmpEvent(e) ==
   /\ IF e.a = e.b THEN TRUE ELSE Rep("MISMATCH", e, "cmp " \o e.what, <<"projections differ">>)
-  /\ cov' = cov \cup {<<"cmp", e.what>>}
-  /\ UNCHANGED <<vS, vPend, vReq, vEnt, runvars>>
+  /\ vR' = [vR EXCEPT !.cov = cov \cup {<<"cmp", e.what>>}]
 
 (***************************************************************************)
 (* ======================  run loop (C13, C18, C10, C17)  ================ *)
@@ -145,11 +130,15 @@ StoreOne(acc, a, v, msgs, stamp) ==
         hit == q.written /\ nxt = IoportMsgS(n, OutVal(q), stamp)
         free == ~q.written /\ acc.mi <= Len(msgs) /\ (\E vv \in 0..255 : nxt = IoportMsgS(n, vv, stamp))
     IN [acc EXCEPT !.ports[n] = q,
+                   !.mem = WrAll(@, << <<DdrLo + n - 1, q.ddr>>, <<DrLo + n - 1, ReadDR(q)>> >>),   \* what the registers read back
                    !.mi = IF hit \/ free THEN @ + 1 ELSE @,
                    !.ok = @ /\ (must => hit)]
   ELSE [acc EXCEPT !.mem = WrAll(@, << <<a, v>> >>), !.tm = TimerWrite(@, a, v, acc.mem)]
 
-PinOne(acc, n, v) == IF n \in Ports THEN [acc EXCEPT !.ports[n] = PExtIn(@, v)] ELSE acc
+PinOne(acc, n, v) ==
+  IF n \in Ports THEN LET q == PExtIn(acc.ports[n], v)
+                      IN [acc EXCEPT !.ports[n] = q, !.mem = WrAll(@, << <<DrLo + n - 1, ReadDR(q)>> >>)]
+  ELSE acc
 
 (* ---- control lines of one poll, in order --------------------------------------------------- *)
 RECURSIVE LinesFold(_, _, _, _, _)
@@ -181,11 +170,7 @@ PollEvent(e) ==
               /\ ~acc.stopped                                        \* after a stop line run() returns: no further poll is observed
               /\ e.sum = vSum
   IN /\ IF ok \/ acc.dub THEN TRUE ELSE Rep("MISMATCH", e, "control lines of one poll", <<"effects of the lines">>)
-     /\ vS' = [vS EXCEPT !.ov = WrAll(acc.mem, e.wr).ov]
-     /\ vPorts' = acc.ports /\ vOdr' = [n \in Ports |-> e.dr[n]] /\ vTm' = acc.tm
-     /\ vPaused' = acc.paused /\ vStopped' = acc.stopped
-     /\ cov' = cov \cup {<<"poll", IF Len(e.lines) = 0 THEN "empty" ELSE IF Len(e.lines) = 1 THEN "single" ELSE "batch">>}
-     /\ UNCHANGED <<vPend, vReq, vEnt, vSum, vExit, vDirty>>
+     /\ vR' = [vR EXCEPT !.s = [vS EXCEPT !.ov = WrAll(acc.mem, e.wr).ov], !.ports = acc.ports, !.odr = [n \in Ports |-> e.dr[n]], !.tm = acc.tm, !.paused = acc.paused, !.stopped = acc.stopped, !.cov = cov \cup {<<"poll", IF Len(e.lines) = 0 THEN "empty" ELSE IF Len(e.lines) = 1 THEN "single" ELSE "batch">>}]
 
 (* ---- one iteration -------------------------------------------------------------------------- *)
 RegsOK(post, x) ==
@@ -197,34 +182,43 @@ BagMinus(big, small) ==        \* elements of big not matched by small (as a seq
   IN F(big, small)
 SubBagOf(small, big) == \A v \in 0..255 : Cardinality({i \in 1..Len(small) : small[i] = v}) <= Cardinality({i \in 1..Len(big) : big[i] = v})
 
-(* state after accepting candidate c (0 = none): [ok, vS, wr] *)
+(* state after accepting candidate c (0 = none): [ok, s, wr] *)
 AfterAccept(c) ==
   IF c = 0 THEN [ok |-> TRUE, s |-> SS(vS), wr |-> <<>>]
   ELSE LET x == AcceptF(SS(vS), c)
            w == CHOOSE q \in x.wr : TRUE
        IN [ok |-> x.res = "ok", s |-> [er |-> x.er, ccr |-> x.ccr, pc |-> x.pc, mem |-> WrAll(M(vS), w)], wr |-> w]
+StepGood(x, post) == x.res = "any" \/ (x.res = "ok" /\ RegsOK(post, x))
+
+(* value of address a in the logged diff d, or in memory m if it did not change *)
+Final(d, m, a) == LET dv == {j \in 1..Len(d) : d[j][1] = a} IN IF dv = {} THEN Rd(m, a) ELSE d[CHOOSE j \in dv : TRUE][2]
+(* an admissible write sequence agrees with the log on its determined plain bytes *)
+AltOK(w, d, m) == \A i \in 1..Len(w) : w[i][2] = -1 \/ ~NonSpecial(w[i][1]) \/ Final(d, m, w[i][1]) = w[i][2]
+(* wild cards resolved from the log *)
+Resolve(w, d, m) == [i \in 1..Len(w) |-> IF w[i][2] # -1 THEN w[i] ELSE <<w[i][1], Final(d, m, w[i][1])>>]
+RECURSIVE WritesFold(_, _, _, _, _)
+WritesFold(acc, ws, i, msgs, stamp) ==
+  IF i > Len(ws) THEN acc ELSE WritesFold(StoreOne(acc, ws[i][1], ws[i][2], msgs, stamp), ws, i + 1, msgs, stamp)
 
 ItEvent(e) ==
-  LET cands == {0} \cup {v \in 1..255 : CanAccept(vS, vPend, v)}
-      try(c) == LET a == AfterAccept(c) IN [c |-> c, a |-> a, x |-> StepF(a.s)]
-      good(c) == LET t == try(c) IN t.a.ok /\ (t.x.res = "any" \/ (t.x.res = "ok" /\ RegsOK(e.post, t.x)))
-      G == {c \in cands : good(c)}
-      c == IF G = {} THEN 0 ELSE CHOOSE v \in G : TRUE
-      t == try(c)
-      x == t.x
+  LET (* which request, if any, was accepted at this boundary: the candidate whose outcome the log shows *)
+      a0 == AfterAccept(0)
+      lite == PROP \in {"C13L", "C18"}      \* long runs: accounting / sync / timer / continuity only, no instruction semantics
+      x0 == IF lite THEN AnyR(a0.s, 0) ELSE StepF(a0.s)
+      VC == IF StepGood(x0, e.post) THEN {} ELSE {v \in 1..255 : CanAccept(vS, vPend, v)}
+      av == [v \in VC |-> AfterAccept(v)]
+      xv == [v \in VC |-> StepF(av[v].s)]
+      Gv == {v \in VC : av[v].ok /\ StepGood(xv[v], e.post)}
+      c  == IF Gv = {} THEN 0 ELSE CHOOSE v \in Gv : TRUE
+      found == StepGood(x0, e.post) \/ Gv # {}
+      ta == IF c = 0 THEN a0 ELSE av[c]
+      x  == IF c = 0 THEN x0 ELSE xv[c]
       anyx == x.res = "any"
-      (* instruction writes: the admissible alternative that agrees with the log, wild cards resolved from the log *)
-      alts == {w \in x.wr : \A i \in 1..Len(w) : w[i][2] = -1 \/ ~NonSpecial(w[i][1])
-                                  \/ (LET dv == {j \in 1..Len(e.wr) : e.wr[j][1] = w[i][1]}
-                                      IN IF dv = {} THEN Rd(t.a.s.mem, w[i][1]) = w[i][2] ELSE e.wr[CHOOSE j \in dv : TRUE][2] = w[i][2])}
-      w == IF alts = {} THEN <<>> ELSE CHOOSE q \in alts : TRUE
-      resolved == [i \in 1..Len(w) |-> IF w[i][2] # -1 THEN w[i]
-                                       ELSE LET dv == {j \in 1..Len(e.wr) : e.wr[j][1] = w[i][1]}
-                                            IN <<w[i][1], IF dv = {} THEN Rd(t.a.s.mem, w[i][1]) ELSE e.wr[CHOOSE j \in dv : TRUE][2]>>]
-      acc0 == [ports |-> vPorts, mem |-> t.a.s.mem, tm |-> vTm, mi |-> 1, ok |-> TRUE, paused |-> FALSE, stopped |-> FALSE, dub |-> FALSE]
-      RECURSIVE WFold(_, _)
-      WFold(acc, i) == IF i > Len(resolved) THEN acc ELSE WFold(StoreOne(acc, resolved[i][1], resolved[i][2], e.msgs, vSum), i + 1)
-      acc == WFold(acc0, 1)
+      m1 == ta.s.mem                                   \* memory after the acceptance, before the instruction
+      alts == {w \in x.wr : AltOK(w, e.wr, m1)}
+      w == IF alts = {} THEN <<>> ELSE Resolve(CHOOSE q \in alts : TRUE, e.wr, m1)
+      acc0 == [ports |-> vPorts, mem |-> m1, tm |-> vTm, mi |-> 1, ok |-> TRUE, paused |-> FALSE, stopped |-> FALSE, dub |-> FALSE]
+      acc == WritesFold(acc0, w, 1, e.msgs, vSum)
       (* messages of the iteration: announcements of port writes, the stdout message of a write call, then sync *)
       sum2 == SumAdd(vSum, e.st)
       crossed == sum2[1] \div 2 > vSum[1] \div 2
@@ -234,59 +228,51 @@ ItEvent(e) ==
       memI == acc.mem                                  \* memory after the instruction, before the timer
       (* timer: the charged states are what the peripherals see *)
       kept == IF c = 0 THEN vPend ELSE RemoveOne(vPend, c)
-      newreq == IF SubBagOf(kept, e.pend) THEN BagMinus(e.pend, kept) ELSE <<>>
+      sub == SubBagOf(kept, e.pend)
+      newreq == IF sub THEN BagMinus(e.pend, kept) ELSE <<>>
       tk == TimerTick(acc.tm, [n |-> e.st, tcnt |-> e.tcnt, tcsr |-> e.tcsr, req |-> newreq, wr |-> <<>>], memI)
-      memT == tk.bm
+      memOK == alts # {} /\ PlainDiffOK(e.wr, M(vS), memI)
+      msgOK == acc.ok /\ rest = expRest
+      (* lite: the instruction stream is continuous (an interrupt may intervene), nothing but sync is said *)
+      liteOK == /\ (e.pcb = <<vS.pc \div P16, vS.pc % P16>> \/ \E v \in 1..255 : CanAccept(vS, vPend, v))
+                /\ e.msgs = (IF crossed THEN <<SyncMsg(sum2)>> ELSE <<>>)
       ok == /\ ~vPaused /\ ~vStopped /\ vS.pc # vExit
-            /\ G # {}
-            /\ (anyx \/ (/\ alts # {} /\ acc.ok
-                         /\ rest = expRest
-                         /\ e.con = x.con
-                         /\ PlainDiffOK(e.wr, M(vS), memI)
-                         /\ PortsReadOK(acc.ports, e.dr)))
+            /\ found
+            /\ (IF lite THEN liteOK ELSE (anyx \/ (memOK /\ msgOK /\ e.con = x.con /\ PortsReadOK(acc.ports, e.dr))))
             /\ e.sum = sum2
-            /\ SubBagOf(kept, e.pend)
+            /\ sub
             /\ tk.ok
-      why == (IF vPaused THEN <<"executed while vPaused">> ELSE <<>>) \o (IF vStopped THEN <<"executed after stop">> ELSE <<>>)
+      why == (IF vPaused THEN <<"executed while paused">> ELSE <<>>) \o (IF vStopped THEN <<"executed after stop">> ELSE <<>>)
              \o (IF vS.pc = vExit THEN <<"continued past the exit address">> ELSE <<>>)
-             \o (IF G = {} THEN <<"registers / pc / ccr after the instruction (with any admissible interrupt acceptance)">> ELSE <<>>)
-             \o (IF G # {} /\ ~anyx /\ (alts = {} \/ ~PlainDiffOK(e.wr, M(vS), memI)) THEN <<"memory">> ELSE <<>>)
-             \o (IF G # {} /\ ~anyx /\ (~acc.ok \/ rest # expRest) THEN <<"messages">> ELSE <<>>)
-             \o (IF G # {} /\ ~anyx /\ e.con # x.con THEN <<"console">> ELSE <<>>)
+             \o (IF ~found THEN <<"registers / pc / ccr after the instruction (with any admissible interrupt acceptance)">> ELSE <<>>)
+             \o (IF found /\ ~anyx /\ ~memOK THEN <<"memory">> ELSE <<>>)
+             \o (IF found /\ ~anyx /\ ~msgOK THEN <<"messages">> ELSE <<>>)
+             \o (IF found /\ ~anyx /\ e.con # x.con THEN <<"console">> ELSE <<>>)
+             \o (IF found /\ ~anyx /\ ~PortsReadOK(acc.ports, e.dr) THEN <<"port read-back">> ELSE <<>>)
+             \o (IF lite /\ ~liteOK THEN <<"instruction stream not continuous, or a message other than the due sync">> ELSE <<>>)
              \o (IF e.sum # sum2 THEN <<"state count">> ELSE <<>>)
-             \o (IF ~SubBagOf(kept, e.pend) THEN <<"pending request lost">> ELSE <<>>)
+             \o (IF ~sub THEN <<"pending request lost">> ELSE <<>>)
              \o (IF ~tk.ok THEN <<"timer: " \o tk.why>> ELSE <<>>)
   IN /\ IF ok THEN TRUE ELSE Rep("MISMATCH", e @@ [res |-> "it"], RowName(x), why)
-     /\ vS' = PostState(e, WrAll(memT, e.wr))
-     /\ vPend' = e.pend
-     /\ vReq' = <<>>
-     /\ vEnt' = <<>>
-     /\ vSum' = e.sum
-     /\ vPorts' = acc.ports /\ vOdr' = [n \in Ports |-> e.dr[n]]
-     /\ vTm' = tk.tm
-     /\ cov' = cov \cup {<<"it", RowName(x)>>} \cup (IF c # 0 THEN {<<"it", "interrupt accepted">>} ELSE {})
-                   \cup (IF crossed THEN {<<"it", "sync">>} ELSE {})
-     /\ UNCHANGED <<vPaused, vStopped, vExit, vDirty>>
+     /\ vR' = [vR EXCEPT !.s = PostState(e, WrAll(tk.bm, e.wr)), !.pend = e.pend, !.req = <<>>, !.ent = <<>>, !.sum = e.sum, !.ports = acc.ports, !.odr = [n \in Ports |-> e.dr[n]], !.tm = tk.tm, !.cov = cov \cup {<<"it", RowName(x)>>} \cup (IF c # 0 THEN {<<"it", "interrupt accepted">>} ELSE {}) \cup (IF crossed THEN {<<"it", "sync">>} ELSE {})]
 
 RetEvent(e) ==
   LET acc0 == [ports |-> vPorts, mem |-> M(vS), tm |-> vTm, mi |-> 1, ok |-> TRUE, paused |-> vPaused, stopped |-> vStopped, dub |-> FALSE]
       acc  == LinesFold(acc0, e.lines, 1, e.msgs, vSum)
       cands == {0} \cup {v \in 1..255 : CanAccept(vS, vPend, v)}
-      failing(c) == LET a == AfterAccept(c) IN ~a.ok \/ StepF(a.s).res \in {"err", "any"}
+      fails == {c \in cands : ~AfterAccept(c).ok \/ StepF(AfterAccept(c).s).res \in {"err", "any"}}
       ok == CASE e.res = "ok" -> acc.stopped \/ (vS.pc = vExit /\ Len(e.lines) = 0)
-              [] e.res = "err" -> ~acc.stopped /\ ~vPaused /\ vS.pc # vExit /\ \E c \in cands : failing(c)
+              [] e.res = "err" -> ~acc.stopped /\ ~vPaused /\ vS.pc # vExit /\ fails # {}
               [] OTHER -> FALSE
   IN /\ IF ok \/ acc.dub THEN TRUE
         ELSE Rep("MISMATCH", e, "run returned", <<IF e.res = "ok" THEN "returned success although neither the exit address was reached nor a stop line received"
                                                   ELSE IF e.res = "err" THEN "returned an error although the next instruction is executable" ELSE "panic">>)
-     /\ cov' = cov \cup {<<"ret", e.res>>}
-     /\ UNCHANGED <<vS, vPend, vReq, vEnt, runvars>>
+     /\ vR' = [vR EXCEPT !.cov = cov \cup {<<"ret", e.res>>}]
 
 TcpEvent(e) ==
   /\ IF e.bytes = FlattenSeq([i \in 1..Len(e.msgs) |-> Frame(e.msgs[i])]) THEN TRUE
      ELSE Rep("MISMATCH", e @@ [res |-> "tcp"], "outgoing framing", <<"byte stream is not the escaped, newline-terminated message sequence">>)
-  /\ cov' = cov \cup {<<"tcp", "">>}
-  /\ UNCHANGED <<vS, vPend, vReq, vEnt, runvars>>
+  /\ vR' = [vR EXCEPT !.cov = cov \cup {<<"tcp", "">>}]
 
 (***************************************************************************)
 Consume ==
@@ -302,7 +288,7 @@ Consume ==
           [] e.k = "it" -> ItEvent(e)
           [] e.k = "ret" -> RetEvent(e)
           [] e.k = "tcp" -> TcpEvent(e)
-          [] OTHER -> PrintT("MISMATCH " \o ToJson([id |-> l, prop |-> PROP, row |-> "unknown-event-kind"])) /\ UNCHANGED <<cov, vS, vPend, vReq, vEnt, runvars>>
+          [] OTHER -> PrintT("MISMATCH " \o ToJson([id |-> l, prop |-> PROP, row |-> "unknown-event-kind"])) /\ UNCHANGED vR
   /\ l' = l + 1
 
 Finish ==
@@ -310,13 +296,13 @@ Finish ==
   /\ PrintT("COVERAGE " \o ToJson([rows |-> SetToSeq(cov)]))
   /\ PrintT("DONE " \o ToString(NRec))
   /\ l' = l + 1
-  /\ UNCHANGED <<cov, vS, vPend, vReq, vEnt, runvars>>
+  /\ UNCHANGED vR
 
-Init == /\ l = 1 /\ cov = {}
-        /\ vS = [er |-> [n \in 0..7 |-> <<0, 0>>], ccr |-> 0, pc |-> 0, ov |-> <<>>, li |-> 1]
-        /\ vPend = <<>> /\ vReq = Zero64 /\ vEnt = Zero64 /\ vSum = <<0, 0>>
-        /\ vPorts = [k \in Ports |-> PortInit] /\ vOdr = [k \in Ports |-> 0] /\ vTm = TimerTraceInit
-        /\ vPaused = FALSE /\ vStopped = FALSE /\ vExit = -1 /\ vDirty = {}
+Init == /\ l = 1
+        /\ vR = [s |-> [er |-> [n \in 0..7 |-> <<0, 0>>], ccr |-> 0, pc |-> 0, ov |-> <<>>, li |-> 1],
+                 pend |-> <<>>, req |-> <<>>, ent |-> <<>>, sum |-> <<0, 0>>,
+                 ports |-> [k \in Ports |-> PortInit], odr |-> [k \in Ports |-> 0], tm |-> TimerTraceInit,
+                 paused |-> FALSE, stopped |-> FALSE, exit |-> -1, cov |-> {}]
 Next == Consume \/ Finish
 Spec == Init /\ [][Next]_vars
 =============================================================================
